@@ -896,6 +896,10 @@ func (a *Act) atReturn(st *State, in *ssa.Return, results []Term) {
 	var errs []string
 	vars := a.bindContract(fc, st, a.args, results, a.fn.Signature, true)
 	e := &specEnv{a: a, tr: a.tr, pkg: fc.pkg, st: st, old: a.entryState, vars: vars, errs: &errs}
+	if fc.panics == "iff" && fc.panicsIff != nil {
+		o := a.obligePost(st, in.Pos(), &clause{text: "returns normally only if !(" + fc.panicsIff.text + ")"}, Not(a.tr.panicsIffTerm()))
+		_ = o
+	}
 	for _, c := range fc.ensures {
 		if !a.tr.wantClause(c) || c.assumed() {
 			continue
@@ -963,6 +967,9 @@ func (a *Act) applyContract(st *State, callee *ssa.Function, fc *FuncContract, a
 	if fc.panics == "may" {
 		ok := tr.freshConst("nopanic_"+lastName(fc.name), "Bool")
 		a.mayPanic(st, "call", pos, ok, tr.freshConst("panicval", "Val"))
+	}
+	if fc.panics == "iff" && fc.panicsIff != nil {
+		a.mayPanic(st, "call", pos, Not(e.evalBool(fc.panicsIff.expr)), tr.freshConst("panicval", "Val"))
 	}
 	// results and frame
 	results := make([]Term, sig.Results().Len())
